@@ -195,7 +195,7 @@ pub fn get_number_or_time(config: &SmartCalcConfig, field_name: &str, fields: &B
     match get_number(field_name, fields) {
         Some(number) => {
             let date = Utc::now().naive_local().date();
-            let time = chrono::NaiveTime::from_hms(number as u32, 0, 0);
+            let time = chrono::NaiveTime::from_hms_opt(number as u32, 0, 0)?;
             Some((NaiveDateTime::new(date, time), config.get_time_offset()))
         },
         None => get_time(field_name, fields)
